@@ -252,6 +252,33 @@ func (a *Agent) SessionsGauge() (float64, error) {
 	return sumGauge(mfs, "pfcp_sessions"), nil
 }
 
+// SessionsGaugeSeries returns pfcp_sessions per node_id label.
+func (a *Agent) SessionsGaugeSeries() (map[string]float64, error) {
+	mfs, err := a.Registry.Gather()
+	if err != nil && mfs == nil {
+		return nil, err
+	}
+	out := map[string]float64{}
+	for _, mf := range mfs {
+		if mf.GetName() != "pfcp_sessions" {
+			continue
+		}
+		for _, m := range mf.Metric {
+			if m.Gauge == nil {
+				continue
+			}
+			l := ""
+			for _, lp := range m.Label {
+				if lp.GetName() == "node_id" {
+					l = lp.GetValue()
+				}
+			}
+			out[l] += m.Gauge.GetValue()
+		}
+	}
+	return out, nil
+}
+
 func sumGauge(mfs []*dto.MetricFamily, name string) float64 {
 	var s float64
 	for _, mf := range mfs {
